@@ -13,6 +13,17 @@ Theorem C14_roundtrip : forall f : cfile, wf_file f = true -> dec_file (enc_file
 Proof. exact dec_enc_file. Qed.
 Print Assumptions C14_roundtrip.
 
+(* Consequence: the encoding is injective on well-formed structures -- two
+   different file structures never produce the same octets, so a file on disk
+   identifies the structure it was written from. *)
+Theorem C14_injective : forall f g : cfile,
+  wf_file f = true -> wf_file g = true -> enc_file f = enc_file g -> f = g.
+Proof.
+  intros f g Hf Hg E. pose proof (C14_roundtrip f Hf) as A.
+  rewrite E, (C14_roundtrip g Hg) in A. congruence.
+Qed.
+Print Assumptions C14_injective.
+
 (* non-vacuity: only the low extension present, 2 records (one with the record
    extension), empty payload, a filter and a private extension *)
 Definition ex_ts := mkTs 12 31 23 59 1 14 45.
